@@ -40,7 +40,8 @@ def validate_models():
         shutil.copy(REPO / "Cargo.lock", root / "Cargo.lock")
         (root / "Cargo.toml").write_text(
             '[workspace]\nresolver = "2"\nmembers = ["crates/*"]\n[patch.crates-io]\n'
-            'indexmap = { path = "/verif/models/indexmap" }\nbytes = { path = "/verif/models/bytes" }\n')
+            'indexmap = { path = "/verif/models/indexmap" }\nbytes = { path = "/verif/models/bytes" }\n'
+            'scoped-tls = { path = "/verif/models/scoped-tls" }\n')
         (root / ".cargo").mkdir()
         (root / ".cargo" / "config.toml").write_text(
             '[net]\noffline = true\n[build]\nrustflags = ["--cfg", "tokio_unstable"]\n')
